@@ -583,6 +583,110 @@ func checkC12(c *Check) {
 		}
 		c.Hold("R7", "TimeWheel.Add:insert-before-notify", r.FI.Decl.Pos(), ok, "the scheduler can be woken before the entry is in the list (the wake-up is lost and the entry waits for the next event)")
 	}
+	// R9: shutdown releases a producer that is blocked in Add, and the stop handshake runs exactly when there is a scheduler to stop
+	c.Rule("R9", "Close: the channel Add waits on as the alternative to its notification is closed on every path that completes the stop handshake; the handshake runs when the scheduler exists (its channel is non-nil) and is skipped when it does not", 2)
+	ra := c.In(queueRel, "TimeWheel", "Add")
+	rc := c.In(queueRel, "TimeWheel", "Close")
+	if ra == nil || rc == nil {
+		c.Fail("R9", "TimeWheel", token.NoPos, "undecided: Add/Close not found")
+	} else {
+		// escape channels of Add: received from in a select that also sends
+		escape := map[*types.Var]bool{}
+		ast.Inspect(ra.FI.Decl.Body, func(x ast.Node) bool {
+			sel, ok := x.(*ast.SelectStmt)
+			if !ok {
+				return true
+			}
+			hasSend := false
+			var recvs []*types.Var
+			for _, cl := range sel.Body.List {
+				cc, ok := cl.(*ast.CommClause)
+				if !ok || cc.Comm == nil {
+					continue
+				}
+				for _, op := range chanOpsIn(info, cc.Comm, false) {
+					if op.kind == "send" {
+						hasSend = true
+					}
+					if op.kind == "recv" && op.field != nil {
+						recvs = append(recvs, op.field)
+					}
+				}
+			}
+			if hasSend {
+				for _, v := range recvs {
+					escape[v] = true
+				}
+			}
+			return true
+		})
+		var sends []Pt
+		var handshake *types.Var
+		for _, pt := range rc.F.Points() {
+			if _, isSend := pt.Node().(*ast.SendStmt); isSend {
+				for _, op := range chanOpsIn(info, pt.Node(), false) {
+					if op.kind == "send" && op.field != nil {
+						sends = append(sends, pt)
+						handshake = op.field
+					}
+				}
+			}
+		}
+		msg := ""
+		if len(escape) == 0 {
+			msg = "Add has no shutdown alternative to its notification (a producer blocks for ever once the scheduler is gone)"
+		} else if len(sends) == 0 {
+			msg = "undecided: Close performs no stop handshake"
+		}
+		for ch := range escape {
+			ch := ch
+			closes := func(pt Pt) bool {
+				for _, op := range chanOpsIn(info, pt.Node(), false) {
+					if op.kind == "close" && op.field == ch {
+						return true
+					}
+				}
+				return false
+			}
+			if msg == "" {
+				if ok, w := rc.MustPass(sends, false, rc.F.IsNormalExit, closes); !ok {
+					msg = "Close can finish the stop handshake without closing " + objName(ch) + ": a concurrent Add stays blocked for ever (" + w + ")"
+				}
+			}
+		}
+		c.Hold("R9", "TimeWheel.Close:releases-blocked-Add", rc.FI.Decl.Pos(), msg == "", msg)
+		msg = ""
+		if handshake == nil {
+			msg = "undecided: no handshake channel"
+		} else {
+			world := func(isNil bool) func(b *cfgBlock, i int) bool {
+				return rc.F.World(func(atom ast.Expr) (bool, bool) {
+					be, ok := ast.Unparen(atom).(*ast.BinaryExpr)
+					if !ok || (be.Op != token.EQL && be.Op != token.NEQ) {
+						return false, false
+					}
+					var other ast.Expr
+					if fieldOf(info, be.X) == handshake {
+						other = be.Y
+					} else if fieldOf(info, be.Y) == handshake {
+						other = be.X
+					} else {
+						return false, false
+					}
+					if !isNilIdent(info, other) {
+						return false, false
+					}
+					return (be.Op == token.EQL) == isNil, true
+				})
+			}
+			if _, f := rc.F.Reach(Query{From: rc.Entry(), Inclusive: true, Target: isPt(sends), AvoidEdge: world(true)}); f {
+				msg = "the stop handshake is attempted on a nil channel (Close blocks for ever when called twice / without a scheduler)"
+			} else if _, f := rc.F.Reach(Query{From: rc.Entry(), Inclusive: true, Target: isPt(sends), AvoidEdge: world(false)}); !f {
+				msg = "with a running scheduler Close never performs the stop handshake (the scheduler goroutine keeps dispatching after Close returned)"
+			}
+		}
+		c.Hold("R9", "TimeWheel.Close:handshake-iff-scheduler", rc.FI.Decl.Pos(), msg == "", msg)
+	}
 }
 
 // locksHeldAt computes which mutex fields are held at pos inside fi: the last lock operation on the mutex on
